@@ -845,6 +845,38 @@ int main(int argc, char** argv)
         protos.clear();
         quiet = false;
     }
+    // joint_ptrs on TWO allocator objects: a block goes back to the allocator object it came from, also after move assignment
+    // (the pointer takes the source's allocator along), swap and move construction
+    {
+        quiet = true;
+        using E = Elem<8, 8>;
+        std::vector<E> protos(4);
+        AllocState     sa, sb;
+        {
+            LogAlloc a(sa), b(sb);
+            auto     pa = allocate_joint<J<E>>(a, joint_size(100), (int)F_SIZE, std::size_t(2), std::size_t(1), std::size_t(0), protos);
+            auto     pb = allocate_joint<J<E>>(b, joint_size(64), (int)F_SIZE, std::size_t(1), std::size_t(1), std::size_t(1), protos);
+            auto     pb2 = allocate_joint<J<E>>(b, joint_size(48), (int)F_SIZE, std::size_t(1), std::size_t(0), std::size_t(0), protos);
+            pa = std::move(pb); // a's object is released to a; pa now owns b's object and must release it to b
+            if (sa.out.size() != 0)
+                fail("joint_ptr move assignment (two allocators): the target's previous object was not released to its own allocator");
+            pa.reset();
+            if (sb.out.size() != 1)
+                fail(fmt("joint_ptr move assignment (two allocators): after reset() allocator B still has %zu block(s) outstanding (1 expected): the "
+                         "block did not go back to the allocator it came from",
+                         sb.out.size()));
+            joint_ptr<J<E>, LogAlloc> pc(a); // empty pointer bound to a
+            pc = std::move(pb2);             // assignment onto an empty pointer
+            swap(pa, pc);                    // pa (empty, now bound to ...) <-> pc (b's object)
+            pa.reset();
+            pc.reset();
+            if (!sa.out.empty() || !sb.out.empty())
+                fail(fmt("joint_ptr move assignment / swap (two allocators): %zu block(s) of A and %zu of B never released", sa.out.size(),
+                         sb.out.size()));
+        }
+        protos.clear();
+        quiet = false;
+    }
     std::printf("summary ops=%ld ok=%ld null=0 throw=%ld grow=0 joint=%ld up_alloc=%ld up_dealloc=%ld oracle_checks=%ld\n", n_cases + n_joint,
                 n_cases - n_fail_cases, n_fail_cases, n_joint, st.n_alloc, st.n_dealloc, n_cases + n_joint);
     return 0;
